@@ -171,8 +171,8 @@ Definition int_literal (v : Z) (s : suffix) : option Z :=
        end.
 
 (* ---------------------------------------------------------------- timeout: spacing of the clock reads *)
-(* scanner.c block loop: the clock is read in iteration i iff i % modulus == residue *)
-Definition block_reads_clock (i : Z) : bool := i mod block_check_modulus =? block_check_residue.
+(* scanner.c block loop: the clock is read in iteration i (offset inside the current block) iff the whole guard holds *)
+Definition block_reads_clock (i : Z) : bool := (i mod block_check_modulus =? block_check_residue) && block_guard_extra i.
 (* exec.c: after every instruction ++cycle OP N -> read the clock, cycle = reset *)
 Definition vm_tick (cycle : Z) : bool * Z :=
   let c := cycle + 1 in
